@@ -85,6 +85,15 @@ def rules(ctx):
                         "Tour::new_precomputed (trusted caches) is called only inside impl Tour", floor=5)
     common.who_may_construct(ctx, "R3.tour-producers", TOUR, [T("new_precomputed")], "a Tour value is assembled only in Tour::new_precomputed")
     common.who_may_construct(ctx, "R3.transition-producers", TRANSITION, [TRANSITION + "::*"], "Transition values are built only inside impl Transition")
+    # R4: truthful cached objective / valid formations of candidates (rule groups shared with C09, C02)
+    from .C09 import tour_cache_rules, cycle_update_rules
+    from .C02 import growth_guards
+    tour_cache_rules(ctx)
+    cycle_update_rules(ctx)
+    before = len(ctx.obligations)
+    growth_guards(ctx)
+    for ob in ctx.obligations[before:]:
+        ob.id = ob.id.replace("C11/R", "C11/R4.formations.R")
     o = ctx.ob("R3.swaps-return-api-results", "T1", SWAP_TRAIT, "each swap's candidate comes out of the schedule modification API")
     bad = []
     for k in keys:
